@@ -1436,3 +1436,163 @@ Proof.
   eapply Forall_impl; [|apply Hok]. intros fp. apply file_ok_ext. intros s.
   eapply inline_preserves; eauto.
 Qed.
+
+(* ================================================================== *)
+(* K. sub-queries                                                     *)
+(* ================================================================== *)
+(* the unsorted search of a sub-query returns exactly the visible streams its parts accept, each once *)
+Theorem sub_search_exact : forall fs sat,
+  Forall (file_ok sat) fs ->
+  Permutation (spec_matching (map fst fs) (fun _ => true) sat) (sub_search v_fixed fs) /\
+  (Forall (fun f => NoDup (map s_id (f_streams f))) (map fst fs) -> NoDup (map e_id (sub_search v_fixed fs))).
+Proof.
+  intros fs sat Hok.
+  destruct (search_files_inv [] 0 (fun _ => true) (sat := sat) 0 Hok) as (rest & HP & _ & _ & _ & HL0 & _).
+  rewrite (HL0 eq_refl), app_nil_r in HP.
+  split; [exact HP|].
+  intros Hf. apply (Permutation_map e_id) in HP. apply (Permutation_NoDup HP).
+  unfold wanted. apply NoDup_map_filter. apply NoDup_visible_ids; auto.
+Qed.
+
+Section Selection.
+  Variable dom : list nat.                      (* the sub-queries in play *)
+
+  (* a combination: one result position per sub-query *)
+  Definition sel_in (c : nat -> nat) (m : selmap) : Prop := forall sq, In sq dom -> In (c sq) (m sq).
+  Definition sel_allows (c : nat -> nat) (sel : subsel) : Prop := exists m, In m sel /\ sel_in c m.
+  (* forbidden in every listed component *)
+  Definition forbidden_by (c : nat -> nat) (sqs : list nat) (forbidden : list (list nat)) : Prop :=
+    Forall2 (fun sq f => In (c sq) f) sqs forbidden.
+  Definition sel_wf (sel : subsel) : Prop := forall m sq, In m sel -> In sq dom -> m sq <> [].
+
+  Lemma sel_in_upd_iff : forall c m sq v, In sq dom -> (forall x, In x v -> In x (m sq)) ->
+    (sel_in c (sel_upd m sq v) <-> sel_in c m /\ In (c sq) v).
+  Proof.
+    intros c m sq v Hsq Hsub. unfold sel_in, sel_upd. split.
+    - intros H. split.
+      + intros k Hk. specialize (H k Hk). destruct (Nat.eqb_spec k sq) as [E|E]; auto. subst k. auto.
+      + specialize (H sq Hsq). rewrite Nat.eqb_refl in H. auto.
+    - intros [H1 H2] k Hk. destruct (Nat.eqb_spec k sq) as [E|E]; auto. subst k. auto.
+  Qed.
+
+  Lemma remove_one_spec : forall c sqs forbidden m,
+    (forall sq, In sq sqs -> In sq dom) -> length sqs = length forbidden ->
+    (sel_allows c (remove_one sqs forbidden m) <-> sel_in c m /\ ~ forbidden_by c sqs forbidden).
+  Proof.
+    intros c. induction sqs as [|sq sqs IH]; intros [|f forbidden] m Hdom Hlen; simpl in Hlen; try discriminate.
+    - simpl. split.
+      + intros (m' & [] & _).
+      + intros [_ H]. exfalso. apply H. constructor.
+    - assert (Hsq : In sq dom) by (apply Hdom; left; auto).
+      assert (Hdom' : forall k, In k sqs -> In k dom) by (intros; apply Hdom; right; auto).
+      assert (Hlen' : length sqs = length forbidden) by lia.
+      assert (Hfb : forbidden_by c (sq :: sqs) (f :: forbidden) <-> In (c sq) f /\ forbidden_by c sqs forbidden).
+      { unfold forbidden_by. split; [intros H; inversion H; subst; auto | intros [? ?]; constructor; auto]. }
+      simpl.
+      destruct (filter (fun x => mem_nat x f) (m sq)) as [|r0 rem] eqn:Erem.
+      + (* nothing to remove *)
+        split.
+        * intros (m' & [<-|[]] & Hin). split; auto. rewrite Hfb. intros [Hf _].
+          assert (In (c sq) (filter (fun x => mem_nat x f) (m sq))).
+          { apply filter_In. split; [apply Hin; auto | apply mem_nat_In; auto]. }
+          rewrite Erem in H. contradiction.
+        * intros [Hin _]. exists m. split; [left; auto | auto].
+      + destruct (filter (fun x => negb (mem_nat x f)) (m sq)) as [|k0 keep] eqn:Ekeep.
+        * (* everything of this component is forbidden: the next sub-query decides *)
+          rewrite IH; auto. rewrite Hfb. split.
+          -- intros [Hin Hn]. split; auto. tauto.
+          -- intros [Hin Hn]. split; auto. intros Hf. apply Hn. split; auto.
+             destruct (in_dec Nat.eq_dec (c sq) f) as [|Hnf]; auto. exfalso.
+             assert (In (c sq) (filter (fun x => negb (mem_nat x f)) (m sq))).
+             { apply filter_In. split; [apply Hin; auto|].
+               destruct (mem_nat (c sq) f) eqn:E; auto. apply mem_nat_In in E. contradiction. }
+             rewrite Ekeep in H. contradiction.
+        * (* split *)
+          rewrite <- Erem, <- Ekeep. unfold sel_allows. split.
+          -- intros (m' & [<-|Hm'] & Hin).
+             ++ apply sel_in_upd_iff in Hin; auto; [|intros x Hx; apply filter_In in Hx; tauto].
+                destruct Hin as [Hin Hk]. split; auto. rewrite Hfb. intros [Hf _].
+                apply filter_In in Hk. destruct Hk as [_ Hk].
+                assert (mem_nat (c sq) f = true) by (apply mem_nat_In; auto). rewrite H in Hk. discriminate.
+             ++ assert (HA : sel_allows c (remove_one sqs forbidden (sel_upd m sq (filter (fun x => mem_nat x f) (m sq)))))
+                  by (exists m'; auto).
+                apply IH in HA; auto. destruct HA as [Hin2 Hn].
+                apply sel_in_upd_iff in Hin2; auto; [|intros x Hx; apply filter_In in Hx; tauto].
+                destruct Hin2 as [Hin2 Hk]. split; auto. rewrite Hfb. tauto.
+          -- intros [Hin Hn]. rewrite Hfb in Hn.
+             destruct (in_dec Nat.eq_dec (c sq) f) as [Hf|Hnf].
+             ++ assert (HA : sel_allows c (remove_one sqs forbidden (sel_upd m sq (filter (fun x => mem_nat x f) (m sq))))).
+                { apply IH; auto. split; [|tauto].
+                  apply sel_in_upd_iff; auto; [intros x Hx; apply filter_In in Hx; tauto|].
+                  split; auto. apply filter_In. split; [apply Hin; auto | apply mem_nat_In; auto]. }
+                destruct HA as (m' & Hm' & Hin'). exists m'. split; [right; auto | auto].
+             ++ exists (sel_upd m sq (filter (fun x => negb (mem_nat x f)) (m sq))). split; [left; auto|].
+                apply sel_in_upd_iff; auto; [intros x Hx; apply filter_In in Hx; tauto|].
+                split; auto. apply filter_In. split; [apply Hin; auto|].
+                destruct (mem_nat (c sq) f) eqn:E; auto. apply mem_nat_In in E. contradiction.
+  Qed.
+
+  (* subQuerySelection.remove takes exactly the forbidden product out *)
+  Theorem sel_remove_spec : forall c sqs forbidden sel,
+    (forall sq, In sq sqs -> In sq dom) -> length sqs = length forbidden ->
+    (sel_allows c (sel_remove sqs forbidden sel) <-> sel_allows c sel /\ ~ forbidden_by c sqs forbidden).
+  Proof.
+    intros c sqs forbidden sel Hdom Hlen. unfold sel_remove. split.
+    - intros (m' & Hm' & Hin). apply in_flat_map in Hm'. destruct Hm' as (m & Hm & Hm').
+      assert (HA : sel_allows c (remove_one sqs forbidden m)) by (exists m'; auto).
+      apply remove_one_spec in HA; auto. destruct HA. split; auto. exists m. auto.
+    - intros [(m & Hm & Hin) Hn].
+      assert (HA : sel_allows c (remove_one sqs forbidden m)) by (apply remove_one_spec; auto).
+      destruct HA as (m' & Hm' & Hin'). exists m'. split; auto. apply in_flat_map. exists m. auto.
+  Qed.
+
+  Lemma remove_one_wf : forall sqs forbidden m, (forall sq, In sq dom -> m sq <> []) ->
+    forall m' sq, In m' (remove_one sqs forbidden m) -> In sq dom -> m' sq <> [].
+  Proof.
+    induction sqs as [|s sqs IH]; intros [|f forbidden] m Hm m' sq Hin Hsq; simpl in Hin; try contradiction.
+    destruct (filter (fun x => mem_nat x f) (m s)) as [|r0 rem] eqn:Erem.
+    - destruct Hin as [<-|[]]. auto.
+    - destruct (filter (fun x => negb (mem_nat x f)) (m s)) as [|k0 keep] eqn:Ekeep.
+      + eapply IH; eauto.
+      + destruct Hin as [<-|Hin].
+        * unfold sel_upd. destruct (Nat.eqb sq s); [discriminate | auto].
+        * eapply IH; [|exact Hin|exact Hsq]. intros k Hk. unfold sel_upd.
+          destruct (Nat.eqb k s); [discriminate | auto].
+  Qed.
+
+  Lemma sel_remove_wf : forall sqs forbidden sel, sel_wf sel -> sel_wf (sel_remove sqs forbidden sel).
+  Proof.
+    intros sqs forbidden sel H m' sq Hin Hsq. unfold sel_remove in Hin.
+    apply in_flat_map in Hin. destruct Hin as (m & Hm & Hin).
+    eapply remove_one_wf; eauto.
+  Qed.
+
+  Lemma sel_nonempty_allows : forall sel, sel_wf sel -> (sel_empty sel = false <-> exists c, sel_allows c sel).
+  Proof.
+    intros sel Hwf. split.
+    - destruct sel as [|m sel]; [discriminate|]. intros _.
+      exists (fun sq => hd 0 (m sq)). exists m. split; [left; auto|].
+      intros sq Hsq. specialize (Hwf m sq (or_introl eq_refl) Hsq).
+      destruct (m sq); [congruence | left; auto].
+    - intros (c & m & Hm & _). destruct sel; [contradiction | auto].
+  Qed.
+
+  Definition op_ok (op : list nat * list (list nat)) : Prop :=
+    (forall sq, In sq (fst op) -> In sq dom) /\ length (fst op) = length (snd op).
+
+  (* all filters of a part share one searchContext: the part matches iff some allowed combination of sub-query
+     results is forbidden by none of its relations *)
+  Theorem rel_filters_exact : forall ops sel, sel_wf sel -> Forall op_ok ops ->
+    (rel_filters ops sel = true <->
+     exists c, sel_allows c sel /\ Forall (fun op => ~ forbidden_by c (fst op) (snd op)) ops).
+  Proof.
+    unfold rel_filters. induction ops as [|op ops IH]; intros sel Hwf Hok; simpl.
+    - rewrite negb_true_iff, (sel_nonempty_allows Hwf). split.
+      + intros (c & H). exists c. split; auto.
+      + intros (c & H & _). exists c. auto.
+    - inversion Hok as [|? ? [Ho1 Ho2] Hok']; subst.
+      rewrite IH; auto; [|apply sel_remove_wf; auto]. split.
+      + intros (c & HA & HF). apply sel_remove_spec in HA; auto. destruct HA. exists c. split; auto.
+      + intros (c & HA & HF). inversion HF; subst. exists c. split; auto. apply sel_remove_spec; auto.
+  Qed.
+End Selection.
